@@ -3,8 +3,12 @@
    beneath.  Vocabulary ([cbackend], the law bundles, the entry points over a back-end, the concrete back-end
    of the Examples): Lemmas/CardanoBackend.v.
 
-   Oracles: HMAC-SHA512/256, PBKDF2-HMAC-SHA512, SHA-512, the ed25519 group with its point encoding.  The
-   bit tweaks, tags, lengths, multipliers and moduli are regenerated from the source (Gen/ConstsCardmon.v).
+   Oracles: HMAC-SHA512/256, PBKDF2-HMAC-SHA512, SHA-512, the ed25519 group with its point encoding ([cbackend]);
+   for addresses Blake2b-224, SHA3-256, ChaCha20-Poly1305, CRC-32, the Bech32 text layer (abstract: decode after
+   encode), and cbor2.loads on untrusted input (assumed to invert the RFC 8949 encodings of the three shapes of a
+   Byron address; a decoder with that property is in Lemmas/CborEnc.v) ([abackend]).  The bit tweaks, tags,
+   lengths, multipliers, moduli, header types, HRPs, nonce and CBOR ids are regenerated from the source
+   (Gen/ConstsCardmon.v).  CBOR encoding itself is concrete (Model/CborEnc.v).
 
    Guard: libsodium's *_noclamp scalar multiplication ignores bit 255 of the scalar, and
    Bip32KholawEd25519KeyDerivator._NewPrivateKeyLeftPart raises OverflowError when kL + 8*ZL >= 2^256.
